@@ -305,3 +305,35 @@ Proof.
   - assert (In x (filter (fun r0 => j_seq r0 =? q) j)) as H by (rewrite Fl; simpl; auto).
     apply filter_In in H as [_ H]. apply Z.eqb_eq in H. now rewrite H.
 Qed.
+
+(* ---------------------------------------------------------------- PURGE: the one way the past is removed *)
+
+(* governance::purge + Transaction::commit: every version row of the purged element is destroyed and the
+   identity stub is recorded as one new version at the purge's own sequence *)
+Definition purge_log (vl : list vrow) (x : Z) (stub : vrow) : list vrow :=
+  filter (fun r => negb (v_elem r =? x)) vl ++ [stub].
+
+Lemma filter_comm {A} (f g : A -> bool) l : filter f (filter g l) = filter g (filter f l).
+Proof. rewrite !filter_filter. apply filter_ext_b. intros. apply andb_comm. Qed.
+
+Theorem purge_leaves_every_other_element vl x stub id s :
+  v_elem stub = x -> id <> x -> element_at (purge_log vl x stub) id s = element_at vl id s.
+Proof.
+  intros E N. unfold element_at, purge_log. rewrite filter_app. simpl.
+  assert ((v_elem stub =? id) = false) as -> by (apply Z.eqb_neq; congruence). simpl.
+  rewrite app_nil_r, filter_filter. f_equal. apply filter_ext_b. intros r.
+  destruct (v_elem r =? id) eqn:E1; simpl; auto.
+  apply Z.eqb_eq in E1. assert ((v_elem r =? x) = false) as -> by (apply Z.eqb_neq; congruence).
+  now rewrite andb_true_r.
+Qed.
+
+Theorem purge_removes_the_past_of_the_purged vl x stub s :
+  v_elem stub = x -> s < v_seq stub -> element_at (purge_log vl x stub) x s = None.
+Proof.
+  intros E L. unfold element_at, purge_log. rewrite filter_app. simpl.
+  assert ((v_seq stub <=? s) = false) as -> by (apply Z.leb_gt; lia).
+  rewrite andb_false_r, app_nil_r, filter_filter.
+  assert (filter (fun r => ((v_elem r =? x) && (v_seq r <=? s)) && negb (v_elem r =? x)) vl = []) as ->.
+  { induction vl as [|r vl IH]; simpl; auto. destruct (v_elem r =? x); simpl; auto. now rewrite andb_false_r. }
+  reflexivity.
+Qed.
